@@ -54,7 +54,7 @@ VACUITY = [
 ]
 
 
-def teeth(ctx, which=None):
+def teeth(ctx, which=None, vac=None):
     """Each cache rule of the code, removed from the SPEC's rules, must break CacheCoherent; each 'this never happens'
     statement must be refuted (vacuity).  Anything else means the model has no teeth -> Infra."""
     shown = []
@@ -66,7 +66,7 @@ def teeth(ctx, which=None):
         shown.append("%s: CacheCoherent violated after %d states" % (rules, r.distinct))
     ctx.cov["teeth"] = shown
     refuted = []
-    for base, inv in VACUITY:
+    for base, inv in (vac or VACUITY):
         r = ctx.tlc("rules", "MC_Production", cfg="vac.cfg", workers=2, timeout=600, count=False, label="vacuity " + inv,
                     files=dict(SCHED, **{"vac.cfg": _variant(base, None, inv)}))
         if r.invariant != inv:
@@ -255,7 +255,8 @@ def binding_demo(ctx):
     variants = {"original": events}
     a = [dict(e) for e in events]
     a[packs[len(packs) // 2]]["score"] += 1
-    variants["corrupted-score"] = a
+    if not ctx.quick:
+        variants["corrupted-score"] = a
     b = [dict(e) for e in events]
     b[vals[len(vals) // 2]]["sroot"] = "deadbeef"
     variants["corrupted-state-root"] = b
@@ -277,6 +278,6 @@ def binding_demo(ctx):
             raise Infra("binding demonstration failed: the %s variant was accepted by Trace_Production" % name)
     expect = {"corrupted-score": packs[len(packs) // 2], "corrupted-state-root": vals[len(vals) // 2], "flipped-verdict": vals[len(vals) // 3]}
     for name, at in expect.items():
-        if where.get(name) != at:
+        if name in variants and where.get(name) != at:
             raise Infra("binding demonstration: the %s variant was rejected at event %s, expected %d" % (name, where.get(name), at))
-    ctx.cov["binding_demo"] = "recorded run accepted; corrupted-score, corrupted-state-root, deleted-pack and flipped-verdict variants rejected"
+    ctx.cov["binding_demo"] = "recorded run accepted; variants rejected at the expected event: " + ", ".join(k for k in variants if k != "original")
